@@ -460,3 +460,14 @@ CORPUS += [
     V("C01", "eq-cvrp-step-demand-shift-commuted", _CV, "torch.clamp(current_node - 1, 0, n_loc - 1)", "torch.clamp(-1 + current_node, 0, n_loc - 1)", None),
     V("C01", "pctsp-step-prize-of-the-previous-node", R + "pctsp/env.py", 'td["real_prize"], current_node', 'td["real_prize"], current_node - 1', "C01.o"),
 ]
+
+# ---- round 11
+_RF = "rl4co/models/rl/reinforce/reinforce.py"
+_BLS = "rl4co/models/rl/reinforce/baselines.py"
+CORPUS += [
+    V("C20", "scaler-recreated-in-post-setup-hook", _RF, '    def post_setup_hook(self, stage="fit"):\n', '    def post_setup_hook(self, stage="fit"):\n        self.advantage_scaler = RewardScaler("norm")\n', "C20.g"),
+    V("C20", "scaler-replaced-in-on-train-epoch-end", _RF, '    def on_train_epoch_end(self):\n', '    def on_train_epoch_end(self):\n        self.advantage_scaler = type(self.advantage_scaler)("norm")\n', "C20.g"),
+    V("C17", "rollout-baseline-decodes-as-in-validation", _BLS, 'return policy(batch, env, decode_type="greedy")["reward"]', 'return policy(batch, env, phase="val")["reward"]', "C17.g"),
+    V("C17", "rollout-baseline-decodes-by-sampling", _BLS, 'return policy(batch, env, decode_type="greedy")["reward"]', 'return policy(batch, env, decode_type="sampling")["reward"]', "C17.g"),
+    V("C17", "eq-rollout-baseline-env-by-keyword", _BLS, 'return policy(batch, env, decode_type="greedy")["reward"]', 'return policy(batch, env=env, decode_type="greedy")["reward"]', None),
+]
